@@ -51,6 +51,30 @@ def leaf_helpers(prog):
     rec = set(k for k in reach if k in reach[k])
     leaf = set(mod.funcs[k].qn for k in reach
                if k not in rec and not (reach[k] & rec))
+    # recursion heads: targets of a back edge in a depth-first walk of the
+    # recursive functions (the function the parser re-enters for a
+    # sub-expression)
+    heads = set()
+    state = {}
+
+    def dfs(k):
+        state[k] = 1
+        for m in sorted(calls[k]):
+            if state.get(m) == 1:
+                heads.add(m)
+            elif m not in state:
+                dfs(m)
+        state[k] = 2
+    for k in sorted(rec, key=lambda k: mod.funcs[k].node.lineno,
+                    reverse=True):
+        if k not in state:
+            dfs(k)
+    # private helpers inside the recursion that are not heads (a `_fold`
+    # between the n-ary case and the recursive call) are seen through too
+    for k in rec:
+        n = mod.funcs[k].name
+        if k not in heads and n.startswith('_') and not n.startswith('__'):
+            leaf.add(mod.funcs[k].qn)
     _LEAF[id(prog)] = leaf
     return leaf
 
@@ -61,7 +85,9 @@ class _NoInline(Hooks):
         self.leaf = leaf
 
     def inline(self, I, fi, args):
-        return fi is self.entry or fi.qn in self.leaf
+        if fi is self.entry or fi.name == '<lambda>':
+            return True
+        return fi.qn in self.leaf and not any(f is fi for f in I.stack)
 
     def construct(self, I, ci, args, kw, path, node):
         if isinstance(ci, ClassInfo):
@@ -231,10 +257,16 @@ def rule_bp2b(prog, results):
                         folded = False
             want_init = (ops[0] == 'And')
             init_ok = False
+            init_known = False
             if isinstance(init, New) and init.args and \
                     isinstance(init.args[0], New) and init.args[0].args:
                 c0 = init.args[0].args[0]
-                init_ok = isinstance(c0, Const) and bool(c0.v) == want_init
+                init_known = isinstance(c0, Const)
+                init_ok = init_known and bool(c0.v) == want_init
+            partial = False
+            if isinstance(v, Sym) and v.meta and v.meta[0] == 'loopvar':
+                it = v.meta[1].iterable
+                partial = it != values and any(x == values for x in walk(it))
             idx = sorted(set(x.args[1].v for x in walk(v)
                              if isinstance(x, App) and x.op == 'item' and
                              x.args[0] == values and
@@ -245,7 +277,7 @@ def rule_bp2b(prog, results):
                    fixed_operand_indices=idx)
             if folded and init_ok:
                 r.ok()
-            elif not idx:
+            elif not idx and not partial and not (folded and init_known):
                 raise Inconclusive('R-BP-2b', 'n-ary %s is built as %r' % (
                     ops[0], v), qn)
             else:
@@ -261,8 +293,9 @@ def rule_bp2b(prog, results):
                     'chained binary operator' % (
                         ops[0].lower(), ops[0].lower(),
                         'uses only operands %s' % idx if idx else
-                        'does not fold over node.values from the neutral '
-                        'element', ops[0].lower(), ops[0].lower()),
+                        'folds over a part of node.values only' if partial
+                        else 'does not fold over node.values from the '
+                        'neutral element', ops[0].lower(), ops[0].lower()),
                     expected='fold over all of node.values'))
     floor('R-BP-2b', 'BoolOp cases', n, 2)
     return r
